@@ -33,13 +33,20 @@ def rng_digest():
     return hashlib.blake2b(st[1].tobytes() + repr(st[2:]).encode(), digest_size=8).hexdigest()
 
 
-def record(lentil, tier, seed):
+def record(lentil, tier, seed, reverse=False):
+    """The calls of all sessions are first laid out as a plan (a deterministic function of tier and seed) and then executed
+    in plan order, or in reverse order (a second process does that: a seeded model must not depend on the calls made before it)."""
     rng = random.Random(1818 + seed)
     q = tier == 'quick'
     d = lentil.detector
     ev = []
+    plan = []
 
-    def call(f, key, sd, fn, predicates, expect='draw', sensitive=True):
+    def call(*a, **k):
+        env = ('seed', rng.randrange(2 ** 31)) if rng.random() < 0.4 else (('advance', rng.randint(1, 4)) if rng.random() < 0.4 else None)
+        plan.append((a, k, env))
+
+    def execute(f, key, sd, fn, predicates, expect='draw', sensitive=True, env=None):
         r0 = rng_digest()
         with warnings.catch_warnings():
             warnings.simplefilter('ignore')
@@ -62,15 +69,15 @@ def record(lentil, tier, seed):
         ev.append({'id': len(ev), 'f': f, 'key': key, 'seed': str(sd), 'res': dg(res) if err is None else 'exc:' + err,
                    'rng': [r0, r1], 'obs': obs, 'expect': expect, 'sensitive': bool(sensitive) and err is None})
         # the environment changes between calls
-        if rng.random() < 0.4:
-            np.random.seed(rng.randrange(2 ** 31))
-        elif rng.random() < 0.4:
-            np.random.uniform(size=rng.randint(1, 4))
+        if env and env[0] == 'seed':
+            np.random.seed(env[1])
+        elif env:
+            np.random.uniform(size=env[1])
 
     nsess = 60 if q else 500
     seeds = [0, 1, 7, 12345, [3, 4]]
     shapes = [(4, 4), (5, 8), (16, 3), (9, 9), (1, 20)]
-    for _ in range(nsess):
+    def session():
         sh = rng.choice(shapes)
         nr = np.random.default_rng(rng.randrange(10 ** 6))
         img = np.round(nr.uniform(2000, 9000, size=sh))
@@ -91,7 +98,12 @@ def record(lentil, tier, seed):
         pred = {'shape': lambda a, sh=sh: a.shape == sh, 'finite': lambda a: np.all(np.isfinite(a)), 'moments': lambda a: True}
         for s in (sd, sd2, sd):
             call('read_noise', f'{key_img}|10', s, lambda s=s: d.read_noise(img, 10, seed=s), pred)
-        rate = rng.choice((50.7, 3.2, 120.0))
+        img_i = img.astype(rng.choice((np.int64, np.int32, np.uint16)))
+        ref = {}
+        call('read_noise', f'{key_img}|0.4|float', sd, lambda: ref.setdefault('x', d.read_noise(img, 0.4, seed=sd)), pred)
+        call('read_noise', f'{key_img}|0.4|{img_i.dtype}', sd, lambda: d.read_noise(img_i, 0.4, seed=sd),
+             dict(pred, moments=lambda a: np.allclose(a, d.read_noise(img, 0.4, seed=sd), rtol=0, atol=1e-9)))
+        rate = rng.choice((50.7, 3.2, 120.0, 0.99999999, 100.99999999, 4095.9999, 2.0 ** 24 + 1.5, 16777217.0))
         call('dark_current', f'{rate}|{sh}|0', sd, lambda: d.dark_current(rate, shape=sh, fpn_factor=0, seed=sd),
              {'shape': lambda a, sh=sh: a.shape == sh, 'floor_rate': lambda a: np.all(a == np.floor(rate))}, expect='nofpn', sensitive=False)
         for s in (sd, sd2, sd):
@@ -110,15 +122,29 @@ def record(lentil, tier, seed):
         pred = {'shape': lambda a, msh=msh: a.shape == msh, 'finite': lambda a: np.all(np.isfinite(a)),
                 'zero_outside_mask': lambda a, mask=mask: np.all(a[mask == 0] == 0),
                 'rms_exact': lambda a, mask=mask, rms=rms: abs(np.sqrt(np.mean(a[mask != 0] ** 2)) - rms) <= 1e-9 * rms}
+        px, hpf, ex = rng.choice((0.01, 0.02, 1 / 256)), rng.choice((8, 3)), rng.choice((3, 2.5))
         for s in (sd, sd2, sd):
-            call('power_spectrum', f'{dg(mask)}|{rms}', s, lambda s=s: lentil.power_spectrum(mask, 0.01, rms, 8, 3, seed=s), pred)
+            call('power_spectrum', f'{dg(mask)}|{rms}|{px}|{hpf}|{ex}', s,
+                 lambda s=s, mask=mask, rms=rms, px=px, hpf=hpf, ex=ex: lentil.power_spectrum(mask, px, rms, hpf, ex, seed=s), pred)
+        # the same mask and seed with another pixel scale (only the pixel scale differs): each is a function of ITS arguments
+        px2 = rng.choice([p for p in (0.01, 0.02, 1 / 256) if p != px])
+        call('power_spectrum', f'{dg(mask)}|{rms}|{px2}|{hpf}|{ex}', sd,
+             lambda mask=mask, rms=rms, px2=px2, hpf=hpf, ex=ex: lentil.power_spectrum(mask, px2, rms, hpf, ex, seed=sd), pred)
+    for _ in range(nsess):
+        session()
     # cosmic rays: every random state of the (enumerated) global generator
     for gs in range(64 if q else 256):
         sh = rng.choice([(6, 6), (5, 9), (12, 4)])
-        np.random.seed(gs)
-        call('cosmic_rays', f'{sh}', gs, lambda sh=sh: d.cosmic_rays(sh, (5e-6, 5e-6, 3e-6), rng.choice((200.0, 2000.0)), rate=4e8),
+        en = rng.choice((200.0, 2000.0))
+
+        def cr(sh=sh, gs=gs, en=en):
+            np.random.seed(gs)
+            return d.cosmic_rays(sh, (5e-6, 5e-6, 3e-6), en, rate=4e8)
+        call('cosmic_rays', f'{sh}|{en}', gs, cr,
              {'shape': lambda a, sh=sh: a.shape == sh, 'finite': lambda a: np.all(np.isfinite(a)), 'nonneg': lambda a: np.all(a >= 0)},
              sensitive=False)
+    for (a, k, env) in (reversed(plan) if reverse else plan):
+        execute(*a, env=env, **k)
     return ev
 
 
@@ -135,21 +161,45 @@ def moments(ctx, lentil):
             # the floor() of the Gaussian variant shifts the mean by at most one count
             if abs(m - lam) > 6 * np.sqrt(lam / n) + (1.0 if method == 'gaussian' else 0) or abs(v - lam) > 6 * lam * np.sqrt(2 / n) + 1:
                 ctx.violation({'kind': 'shot-noise-moments', 'method': method}, {'signal': lam, 'mean': float(m), 'variance': float(v)}, case=None)
-    for sig in (1.0, 12.5):
-        x = d.read_noise(np.zeros((400, 400)), sig, seed=5)
-        if abs(x.mean()) > 6 * sig / np.sqrt(n) or abs(x.std() - sig) > 6 * sig / np.sqrt(2 * n):
-            ctx.violation({'kind': 'read-noise-moments'}, {'sigma': sig, 'mean': float(x.mean()), 'std': float(x.std())}, case=None)
+    for sig in (0.4, 1.0, 12.5):
+        for dt in (float, np.int64, np.uint16):
+            base = np.full((400, 400), 100, dtype=dt)
+            x = np.asarray(d.read_noise(base, sig, seed=5), dtype=float) - 100
+            if abs(x.mean()) > 6 * sig / np.sqrt(n) or abs(x.std() - sig) > 6 * sig / np.sqrt(2 * n):
+                ctx.violation({'kind': 'read-noise-moments', 'frame_dtype': np.dtype(dt).kind}, {'sigma': sig, 'mean': float(x.mean()), 'std': float(x.std())}, case=None)
 
 
 def run(ctx):
     lentil = import_lentil()
     events = record(lentil, ctx.tier, ctx.seed)
+    # the same plan executed in reverse order by a fresh process: results must agree call by call (SeedDeterminism over the
+    # merged trace), i.e. no model depends on what was called before it in the process
+    import os
+    import subprocess
+    import sys
+    code = ('import sys, json; sys.path.insert(0, %r); from harness.core import import_lentil; from drivers import c18; '
+            'print("EVENTS" + json.dumps(c18.record(import_lentil(), %r, %d, reverse=True)))' % (os.path.dirname(os.path.dirname(os.path.abspath(__file__))), ctx.tier, ctx.seed))
+    p = subprocess.run([sys.executable, '-c', code], capture_output=True, text=True, timeout=1800)
+    line = [l for l in p.stdout.splitlines() if l.startswith('EVENTS')]
+    if p.returncode != 0 or not line:
+        from harness.tlc import TLCError
+        raise TLCError('reverse-order recorder failed: ' + p.stderr[-2000:])
+    rev = json.loads(line[0][6:])
+    nfwd = len(events)
+    for e in rev:
+        e['id'] = len(events)
+        e['order'] = 'reverse'
+        events.append(e)
+    ctx.extra['events_forward'] = nfwd
+    ctx.extra['events_reverse_order_fresh_process'] = len(rev)
     bad = validate_trace(ctx, 'Trace_C18', events, nparts=1, timeout=1800)
     byid = {e['id']: e for e in events}
     for eid, clauses in bad:
         e = byid[eid]
         for cl in clauses:
             sig = {'f': e['f'], 'clause': cl[0], 'what': cl[1]}
+            if e.get('order'):
+                sig['order'] = e['order']
             if e['f'] == 'shot_noise':
                 sig['method'] = e['key'].split('|')[0]
                 sig['expect'] = e['expect']
